@@ -3,12 +3,13 @@
 // Contracts for the executor commitment pool (C11) — comment-only.
 //
 // Counting vocabulary over a committee c, pool p and scheduler commitment sc:
-//   Counted(j)    member j belongs to the group being counted (primary workers
-//                 during detection, backup workers during resolution)
-//   Present(j)    ... and has an entry in sc.Votes
-//   Failed(j)     ... and that entry is a failure (nil)
-//   VotedAny(j)   ... and that entry is a vote
-//   VotedFor(j,h) ... and that vote is h
+//
+//	Counted(j)    member j belongs to the group being counted (primary workers
+//	              during detection, backup workers during resolution)
+//	Present(j)    ... and has an entry in sc.Votes
+//	Failed(j)     ... and that entry is a failure (nil)
+//	VotedAny(j)   ... and that entry is a vote
+//	VotedFor(j,h) ... and that vote is h
 package commitment
 
 //@ import scheduler "github.com/oasisprotocol/oasis-core/go/scheduler/api"
